@@ -851,4 +851,30 @@ Section Sim.
         eapply rsim_bind; [apply eval_sim; auto|]. intros v v' s1 s1' E E' Hv Hs1.
         apply rsim_ret; auto.
   Qed.
+
+  (* ---- C08: which function a rewritten recurse call enters *)
+  Notation BELOW := (below W p typeof tbl callv binop getattr getitem truthy fmt ugl mself).
+
+  Lemma eval_below : forall reg n, EVAL reg n = EV reg (BELOW reg n).
+  Proof. destruct n; reflexivity. Qed.
+
+  Theorem recurse_is_call : forall r ar kw,
+    p_rs p = Some r -> is_sym (p_cs p) r = false -> dom p (ECall (EName (NUser r)) ar kw) = true ->
+    forall n k rho s s', srel s s' -> FIXED s' rho ->
+      rsim vrel
+        (obind W (EVA false (BELOW false n) rho ar s) (fun vs s2 =>
+         obind W (EVK false (BELOW false n) rho kw s2) (fun ks s3 =>
+           Some (dispatch W p typeof tbl callv (p_id p) [] (self_list p mself) vs ks s3))))
+        (EVAL true n rho (fst (rw p k (ECall (EName (NUser r)) ar kw))) s').
+  Proof.
+    intros r ar kw Hr Hc Hd n k rho s s' Hs Ht.
+    pose proof (eval_sim n rho _ k s s' Hd Hs Ht) as Hsim.
+    rewrite (eval_below false) in Hsim. rewrite ev_ECall, ev_EName in Hsim.
+    assert (Hsp : special p (NUser r) = true).
+    { simpl. unfold is_sym at 1. rewrite Hr, Nat.eqb_refl. reflexivity. }
+    destruct (lc_special s s' rho (NUser r) false Hs Hsp) as [Hl _]. rewrite Hl in Hsim.
+    assert (Hg : genv p ugl mself false (NUser r) = Some (VPrim PRecurse)).
+    { simpl. rewrite Hc. unfold is_sym. rewrite Hr, Nat.eqb_refl. reflexivity. }
+    rewrite Hg in Hsim. cbn [obind] in Hsim. exact Hsim.
+  Qed.
 End Sim.
